@@ -2,6 +2,7 @@
 from __future__ import annotations
 
 import ast
+import re
 
 from .. import AnalysisError, flow, states, rules, gd, cmp
 from ..report import Ctx
@@ -293,6 +294,25 @@ def head_of_line(ctx: Ctx):
                   why_bad=f"ChargingStation.enter refuses unless `{txt[:200]}`, but ChargeQueueing.enter admits without it: an admitted vehicle for which it fails is passed over at the "
                           f"head of the queue every step while vehicles that joined later take the plug",
                   construct=f"head-of-line:{txt[:160]}")
+        # ... and it cannot CHANGE while the vehicle waits: a condition that held at admission protects the head of the line only if it
+        # is about things a waiting vehicle keeps (who it is, what it can plug into, which fleets it belongs to). The driver's shift,
+        # the battery level and the activity itself move on while the vehicle stands in the queue.
+        fields = set()
+        for m_ in re.finditer(re.escape(veh) + r"\.([A-Za-z_]+)", d):
+            fields.add(m_.group(1))
+        moving = sorted(fields & WHILE_QUEUED_CHANGES)
+        unknown = sorted(fields - WHILE_QUEUED_CHANGES - WHILE_QUEUED_KEEPS)
+        if unknown:
+            raise AnalysisError(f"head-of-line: eligibility condition `{txt[:80]}` reads vehicle field(s) {unknown} the rule has no entry for")
+        ctx.check(not moving, "D3", "GD.head-of-line", f"plug grant requires `{txt[:110]}`: about something a waiting vehicle keeps", plug_sc.enter,
+                  why_bad=f"`{txt[:160]}` reads the vehicle's {moving}, which changes while the vehicle waits: a vehicle admitted when it held can reach the head of the queue when it no "
+                          f"longer does, is refused the plug step after step, and the vehicles that joined later are served first",
+                  construct=f"head-of-line-moving:{txt[:160]}")
+
+
+# vehicle fields by whether anything in a step can change them while the vehicle's activity is ChargeQueueing
+WHILE_QUEUED_KEEPS = {"id", "membership", "mechatronics_id", "geoid", "position", "total_seats"}
+WHILE_QUEUED_CHANGES = {"driver_state", "energy", "vehicle_state", "balance", "distance_traveled_km", "energy_expended", "energy_gained"}
 
 
 def first_update_after_grant(ctx: Ctx):
